@@ -21,6 +21,12 @@ API_ROOTS = [
     'bip32.PrvKeyNode.extended_private_key', 'bip85.BIP85DeterministicEntropy.bip39_mnemonic', 'bip85.BIP85DeterministicEntropy.wif',
     'bip85.BIP85DeterministicEntropy.xprv', 'bip85.BIP85DeterministicEntropy.hex', 'bip85.BIP85DeterministicEntropy.pwd',
     'paper_wallet.PaperWallet.generate', 'paper_wallet.PaperWallet.json', 'paper_wallet.PaperWallet.wasabi_json',
+    # building a wallet on a node is a request too: it must not alter the node it is given ("no request alters the root key")
+    'base_wallet.BaseWallet.__init__', 'base_wallet.BaseWallet.from_extended_key', 'base_wallet.BaseWallet.from_mnemonic',
+    'base_wallet.BaseWallet.from_bip39_seed_bytes', 'base_wallet.BaseWallet.from_bip39_seed_hex',
+    'base_wallet.BaseWallet.from_entropy_hex', 'base_wallet.BaseWallet.from_entropy_bits', 'base_wallet.BaseWallet.new_wallet',
+    'bip85.BIP85DeterministicEntropy.__init__', 'bip85.BIP85DeterministicEntropy.from_xprv',
+    'bip32.PubKeyNode.parse', 'bip32.PrvKeyNode.master_key',
 ]
 # bookkeeping fields and the only functions allowed to read them
 PARENT_READERS = {'__repr__', 'is_master', 'is_root', 'parent_fingerprint', '__init__'}
@@ -90,6 +96,78 @@ def _stores(fi):
             yield ('mutate', rootname, ast.unparse(n.func), n, local, selfname)
 
 
+def _is_none_test(test, selfname, attr):
+    return isinstance(test, ast.Compare) and len(test.ops) == 1 and isinstance(test.ops[0], ast.Is) \
+        and isinstance(test.comparators[0], ast.Constant) and test.comparators[0].value is None \
+        and isinstance(test.left, ast.Attribute) and test.left.attr == attr \
+        and isinstance(test.left.value, ast.Name) and test.left.value.id == selfname
+
+
+def _attr_stores(p, cls, attr):
+    """(function, assignment node) of every store to <name>.attr in methods of cls."""
+    out = []
+    for fi in p.functions.values():
+        if fi.cls is not cls:
+            continue
+        for n in ast.walk(fi.node):
+            if isinstance(n, (ast.Assign, ast.AugAssign, ast.AnnAssign)):
+                tg = n.targets if isinstance(n, ast.Assign) else [n.target]
+                for t in tg:
+                    for x in ast.walk(t):
+                        if isinstance(x, ast.Attribute) and x.attr == attr and isinstance(x.ctx, ast.Store):
+                            out.append((fi, n))
+    return out
+
+
+def lazy_init(p, fi, store_node, selfname):
+    """Write-once lazy initialisation: `if self.X is None: self.X = E` (every store to X outside __init__ sits under
+    such a test in this one function, __init__ stores None, E does not read X, and every field of self that E reads is
+    written only in __init__).  Such a field holds None or f(immutable fields): reads are history-independent, and two
+    threads can only store the same value."""
+    if selfname is None or fi.cls is None or not isinstance(store_node, ast.Attribute):
+        return False
+    if not (isinstance(store_node.value, ast.Name) and store_node.value.id == selfname):
+        return False
+    attr = store_node.attr
+    parents = {}
+    for n in ast.walk(fi.node):
+        for ch in ast.iter_child_nodes(n):
+            parents[ch] = n
+
+    def guarded(n):
+        prev = n
+        cur = parents.get(n)
+        while cur is not None:
+            if isinstance(cur, ast.If) and _is_none_test(cur.test, selfname, attr) and any(prev is b or prev in list(ast.walk(b)) for b in cur.body):
+                return True
+            prev, cur = cur, parents.get(cur)
+        return False
+    for f2, asg in _attr_stores(p, fi.cls, attr):
+        if f2.name == '__init__':
+            if not (isinstance(asg, ast.Assign) and isinstance(asg.value, ast.Constant) and asg.value.value is None):
+                return False
+            continue
+        if f2 is not fi or not guarded(asg):
+            return False
+        val = asg.value if isinstance(asg, (ast.Assign, ast.AnnAssign)) else None
+        if val is None or isinstance(asg, ast.AugAssign):
+            return False
+        for x in ast.walk(val):
+            if isinstance(x, ast.Attribute) and isinstance(x.value, ast.Name) and x.value.id == selfname:
+                if x.attr == attr:
+                    return False
+                if any(f3.name != '__init__' for f3, _ in _attr_stores(p, fi.cls, x.attr)):
+                    return False
+    # the field must not be stored from other classes / functions through another name
+    for f3 in p.functions.values():
+        if f3.cls is fi.cls:
+            continue
+        for n in ast.walk(f3.node):
+            if isinstance(n, ast.Attribute) and n.attr == attr and isinstance(n.ctx, ast.Store):
+                return False
+    return True
+
+
 def run(ctx):
     p = ctx.p
     ctx.explanation = (
@@ -123,6 +201,11 @@ def run(ctx):
                 if local:
                     cats['b' if kind == 'store' else 'd'] += 1
                     ob.evaluations += 1
+                    continue
+                if kind == 'store' and lazy_init(p, fi, node, selfname):
+                    cats['e'] = cats.get('e', 0) + 1
+                    ob.evaluations += 1
+                    ob.note('write-once lazy initialisation of %s in %s (None or a function of fields that only __init__ writes)' % (text, key))
                     continue
                 if kind == 'mutate' and text.endswith('.children.append'):
                     # the bookkeeping append; harmless wherever it sits because `children` is never read (C13.NOREAD)
